@@ -38,6 +38,9 @@ SIG_D4 = "C16-D4-copy-loop-iterator-invalidation"
 SIG_F1 = "C16-F1-deleteselectednodes-keeps-selected-segment"
 SIG_F2 = "C16-F2-addnode-double-split-duplicates-segment"
 SIG_F3 = "C16-F3-snap-tolerance-not-inductive"
+SIG_F4 = "C16-F4-segment-drawn-over-block-label"
+SIG_F5 = "C16-F5-addarc-without-points-crashes"
+SIG_F6 = "C16-F6-zero-tolerance-when-all-points-coincide"
 
 
 # ------------------------------------------------------------------------ rendering ----
@@ -332,6 +335,67 @@ def gen_seq(rng, length, arcs=False, lattice_p=0.75):
     return ops
 
 
+def gen_props_copy(rng):
+    """entities with groups and properties, selected again (by group or one by one), then copied / moved:
+    the copies must carry group and properties"""
+    ops = []
+    pts = []
+    while len(pts) < rng.randint(2, 4):
+        p = (float(rng.randint(0, 2)), float(rng.randint(0, 2)))
+        if p not in pts:
+            pts.append(p)
+    for p in pts:
+        ops.append(("addnode",) + p)
+    segs = list(zip(pts, pts[1:])) if rng.random() < 0.7 else []
+    for a, b in segs:
+        ops.append(("addsegment",) + a + b)
+    labs = [(p[0] + 0.25, p[1] + 0.35) for p in pts[:rng.randint(0, 2)]]
+    for l in labs:
+        ops.append(("addlabel",) + l)
+    g = rng.choice([1, 2, 3])
+    k = rng.choice([1, 2, 3])
+    for p in pts[:rng.randint(1, len(pts))]:
+        ops.append(("selectnode",) + p)
+    ops.append(("setnodeprop", k, g))
+    ops.append(("clearselected",))
+    for a, b in segs[:rng.randint(0, len(segs))]:
+        ops.append(("selectsegment", (a[0] + b[0]) / 2, (a[1] + b[1]) / 2))
+    if segs:
+        ops.append(("setsegprop", rng.choice([1, 2, 3]), g))
+        ops.append(("clearselected",))
+    for l in labs:
+        ops.append(("selectlabel",) + l)
+    if labs:
+        ops.append(("setlabelprop", rng.choice([1, 2, 3]), g))
+        ops.append(("clearselected",))
+    if rng.random() < 0.6:
+        ops.append(("selectgroup", g))
+        mode = rng.choice([4, 4, 0, 1, 2])
+    else:
+        mode = rng.choice([0, 1, 2])
+        if mode == 0:
+            for p in pts:
+                ops.append(("selectnode",) + p)
+        elif mode == 1:
+            for a, b in segs:
+                ops.append(("selectsegment", (a[0] + b[0]) / 2, (a[1] + b[1]) / 2))
+        else:
+            for l in labs:
+                ops.append(("selectlabel",) + l)
+    r = rng.random()
+    if r < 0.45:
+        ops.append(("copytranslate", rng.choice([3.0, 0.5, 1.0]), rng.choice([0.0, 3.0, 1.0]), rng.choice([1, 2]), mode))
+    elif r < 0.6:
+        ops.append(("copyrotate", 5.0, 5.0, rng.choice([90.0, 30.0]), rng.choice([1, 2]), mode))
+    elif r < 0.75:
+        ops.append(("mirror", 4.0, 0.0, 4.0, 1.0, mode))
+    elif r < 0.9:
+        ops.append(("movetranslate", rng.choice([3.0, 1.0]), rng.choice([0.0, 1.0]), mode))
+    else:
+        ops.append(("scale", 0.0, 0.0, 2.0, mode))
+    return ops
+
+
 def gen_copy_heavy(rng):
     """3-5 entities, everything selected, 4..20 copies: the vectors must reallocate inside the copy loops."""
     ops = []
@@ -382,6 +446,9 @@ PROBE_F1 = [("addnode", 0.0, 0.0), ("addnode", 1.0, 0.0), ("addsegment", 0.0, 0.
 PROBE_F2 = [("addnode", 0.0, 0.0), ("addnode", 1.0, 0.0), ("addnode", 1.0, 2e-5),
             ("addsegment", 0.0, 0.0, 1.0, 0.0), ("addsegment", 0.0, 0.0, 1.0, 2e-5), ("addnode", 0.05, 0.5e-6)]
 PROBE_F3 = [("addnode", 0.0, 0.0), ("addnode", 1e-7, 0.0), ("addnode", 1000.0, 0.0)]
+PROBE_F4 = [("addnode", 0.0, 0.0), ("addnode", 2.0, 0.0), ("addlabel", 1.0, 0.0), ("addsegment", 0.0, 0.0, 2.0, 0.0)]
+PROBE_F6 = [("addnode", 0.0, 0.0), ("addnode", 1.0, 0.0), ("addsegment", 0.0, 0.0, 1.0, 0.0), ("selectnode", 0.0, 0.0),
+            ("movetranslate", 1.0, 0.0, 0)]
 PROBE_D4 = [("addnode", 0.0, 0.0), ("addnode", 1.0, 0.0), ("addnode", 1.0, 1.0), ("addnode", 0.0, 1.0),
             ("selectnode", 0.0, 0.0), ("copytranslate", 3.0, 0.0, 1, 0)]
 
@@ -401,7 +468,7 @@ def exhaustive_sequences(maxlen):
 
 
 # ----------------------------------------------------------------------- the check ----
-def classify(msg, ops, k, pre):
+def classify(msg, ops, k, pre, post):
     """Map an oracle failure at op k to the signature of a known defect pattern (or None)."""
     name = ops[k][0]
     if name == "deleteselectednodes" and pre is not None:
@@ -409,8 +476,12 @@ def classify(msg, ops, k, pre):
         if any(s[2] and (s[0] in selnodes or s[1] in selnodes) for s in pre["segs"]) or \
            any(a[2] and (a[0] in selnodes or a[1] in selnodes) for a in pre["arcs"]):
             return SIG_F1
-    if "duplicate" in msg and pre is not None:
-        return SIG_F2 if orc.double_split_possible(pre, ops[k]) else None
+    if "duplicate segment" in msg and pre is not None:
+        return SIG_F2 if orc.duplicate_from_split(pre, ops[k], post) else None
+    if name in ("addsegment", "addarc") and "block label" in msg and "sits on segment" in msg:
+        return SIG_F4
+    if "at the same place" in msg and pre is not None and name in orc.ENFORCE and orc.enforce_tolerance(pre, ops[k]) == 0.0:
+        return SIG_F6
     return None
 
 
@@ -443,9 +514,11 @@ def check_cases(ctx, exe, cases, stats, sanitized=False, with_model=True):
         pre = dict(nodes=[], segs=[], arcs=[], labels=[])
         for k, st in enumerate(states):
             stats["evaluations"] += 1
+            if st != pre:
+                stats["distinct"].add(hash((repr(pre), ops[k])))
             msg = orc.check_step(pre, ops[k], st)
             if msg:
-                sig = classify(msg, ops, k, pre) or ("C16-oracle-" + ops[k][0])
+                sig = classify(msg, ops, k, pre, st) or ("C16-oracle-" + ops[k][0])
                 ctx.fail("after op %d (%s): %s" % (k, ops[k][0], msg), ops=[list(o) for o in ops[:k + 1]],
                          signature=sig, flavour="san" if sanitized else "plain")
                 stats["oracle_failures"] += 1
@@ -456,8 +529,6 @@ def check_cases(ctx, exe, cases, stats, sanitized=False, with_model=True):
         if with_model and nmodel > 0 and all(o[0] in MODEL_OPS for o in ops[:nmodel]):
             exprs.append(to_coq(ops[:nmodel], got["zs"][:nmodel]))
             idx.append((cid, ops, states[:nmodel]))
-        if len(ops) > 2:
-            stats["distinct"].add(to_text(0, ops))
     if exprs:
         model = vlib.coq_eval(HEADER, exprs, shard=60 if ctx.quick() else 150)
         for (cid, ops, states), m in zip(idx, model):
@@ -494,7 +565,7 @@ def correspond(ctx):
         for f in sorted(os.listdir(cdir)):
             cases.append([tuple(o) for o in json.load(open(os.path.join(cdir, f)))["ops"]])
     # deterministic probes of the recorded defect patterns
-    cases += [PROBE_F1, PROBE_F2, PROBE_D4]
+    cases += [PROBE_F1, PROBE_F2, PROBE_F4, PROBE_F6, PROBE_D4]
     n_rand = 140 if ctx.quick() else 2500
     for k in range(n_rand):
         r = k % 10
@@ -504,14 +575,22 @@ def correspond(ctx):
             cases.append(gen_seq(rng, rng.randint(8, 26), lattice_p=0.4))
         else:
             cases.append(gen_seq(rng, rng.randint(8, 24), arcs=True))
+    cases += [gen_props_copy(rng) for _ in range(24 if ctx.quick() else 400)]
     cases = list(enumerate(cases))
     dis += check_cases(ctx, exe, cases, stats)
     # the naive global snap-tolerance claim (C16_snap_tolerance_global_refuted) replayed on the real code
     probe_f3(ctx, exe, stats)
+    probe_f5(ctx, stats)
     if not ctx.quick():
         dis += exhaustive(ctx, exe, stats)
     # sanitizer replay of copy-heavy sequences (D4; also relevant to C08)
     sanitizer_replay(ctx, stats)
+    if dis and ctx.failing_inputs:
+        # runcheck.py drops correspondence disagreements as soon as a property failure was recorded (even one that
+        # is a known finding): report them as failures of the check in their own right
+        for d in dis[:3]:
+            ctx.fail("model and implementation disagree (the oracle found no property violation in this sequence): "
+                     + d["what"], ops=d.get("ops"), signature="C16-correspondence")
     cov = ctx.res.cov
     cov["evaluations"] = stats["evaluations"]
     cov["distinct_nontrivial"] = len(stats["distinct"])
@@ -519,11 +598,12 @@ def correspond(ctx):
                    "scale, translate/rotate/mirror copy, create radius) over a 3x3 lattice plus off-lattice and random real "
                    "coordinates, executed by the real FemmProblem exactly as the Lua commands call it; one evaluation = one op "
                    "whose resulting drawing was checked by the exact-rational oracle; sequences without arc ops are also "
-                   "compared state by state with the binary64 reading of the Coq model; non-trivial = more than 2 ops, "
-                   "distinct = distinct sequence text; thorough tier adds the exhaustive enumeration of all sequences up to "
-                   "length 4 over the lattice alphabet")
+                   "compared state by state with the binary64 reading of the Coq model; non-trivial = the op changed the "
+                   "drawing, distinct = distinct (drawing before, op) pairs; the thorough tier also enumerates completely ALL "
+                   "sequences of length <= 4 over a 26-op alphabet on the 3x3 lattice ('exhaustive' refers to that finite "
+                   "space, see exhaustive_space; the seeded random sequences come on top)")
     cov["input_distribution"] = dict(op_kinds=stats["kinds"], sequences=stats["cases"])
-    cov["samples"] = [to_text(cid, ops).split("\n")[:14] for cid, ops in cases[3:5]]
+    cov["samples"] = [to_text(cid, ops).split("\n")[:14] for cid, ops in cases[5:7]]
     cov["states_compared_with_model"] = stats["states_compared"]
     cov["values_compared"] = stats["values"]
     cov["bit_identical"] = stats["bit_identical"]
@@ -531,6 +611,9 @@ def correspond(ctx):
     cov["oracle_failures"] = stats["oracle_failures"]
     cov["double_split_flag_seen"] = stats["dsplit_flag"]
     cov["sanitizer_replay"] = stats.get("san", {})
+    if "exhaustive" in stats:
+        cov["exhaustive"] = True
+        cov["exhaustive_space"] = stats["exhaustive"]
     return dis
 
 
@@ -549,27 +632,48 @@ def probe_f3(ctx, exe, stats):
                  % (gap, tol), ops=[list(o) for o in PROBE_F3], signature=SIG_F3)
 
 
+def probe_f5(ctx, stats):
+    """mi_addarc in a document without points (the harness does not drive this: luaAddArc indexes nodelist[-1])"""
+    tool = ctx.snap.tool("femmcli")
+    if not os.path.exists(tool):
+        return
+    lua = os.path.join(ctx.work, "f5.lua")
+    script = 'newdocument(0)\nmi_addarc(0,0,1,1,90,5)\nprint("survived")\n'
+    open(lua, "w").write(script)
+    rc, out, err = vlib.sh([tool, "--lua-script=" + lua], timeout=60, cwd=ctx.work)
+    stats["evaluations"] += 1
+    if "survived" not in out:
+        ctx.fail("femmcli terminates abnormally (rc=%d) on mi_addarc in a document without points: luaAddArc toggles "
+                 "nodelist[closestNode(...)] = nodelist[-1]" % rc, lua=script.split("\n"), signature=SIG_F5)
+
+
 def exhaustive(ctx, exe, stats):
+    """ALL sequences of length <= 4 over the 26-op lattice alphabet through the implementation and the oracle;
+    those of length <= 3 and those of length 4 that start with two addnode also through the model."""
     alpha = exhaustive_sequences(4)
     dis = []
-    batch, cid = [], 0
-    total = 0
+    cid = 0
+    nmodel = 0
     for L in (1, 2, 3, 4):
+        batch_m, batch_o = [], []
         for seq in itertools.product(alpha, repeat=L):
-            # prune: sequences that start with something other than addnode act on an empty drawing
-            if seq[0][0] != "addnode":
-                continue
-            if L == 4 and seq[1][0] != "addnode":
-                continue
-            batch.append((cid, list(seq)))
+            with_model = L <= 3 or (seq[0][0] == "addnode" and seq[1][0] == "addnode")
+            (batch_m if with_model else batch_o).append((cid, list(seq)))
             cid += 1
-            if len(batch) >= 4000:
-                dis += check_cases(ctx, exe, batch, stats, with_model=(total % 5 == 0))
-                total += 1
-                batch = []
-    if batch:
-        dis += check_cases(ctx, exe, batch, stats)
-    stats["kinds"]["<exhaustive sequences>"] = cid
+            if len(batch_m) >= 3000:
+                dis += check_cases(ctx, exe, batch_m, stats, with_model=True)
+                nmodel += len(batch_m)
+                batch_m = []
+            if len(batch_o) >= 20000:
+                dis += check_cases(ctx, exe, batch_o, stats, with_model=False)
+                batch_o = []
+        if batch_m:
+            dis += check_cases(ctx, exe, batch_m, stats, with_model=True)
+            nmodel += len(batch_m)
+        if batch_o:
+            dis += check_cases(ctx, exe, batch_o, stats, with_model=False)
+    stats["exhaustive"] = dict(alphabet=[" ".join(fmt(v) for v in o) for o in alpha], max_length=4, sequences=cid,
+                               sequences_also_through_model=nmodel)
     return dis
 
 
@@ -591,9 +695,23 @@ def sanitizer_replay(ctx, stats):
         stats["kinds"][k] = stats["kinds"].get(k, 0) + v
 
 
+class _Collect:
+    """stands in for ctx in check_cases: collects the failures instead of reporting them"""
+    def __init__(self, ctx):
+        self.failing_inputs = []
+        self._quick = ctx.quick()
+
+    def quick(self):
+        return self._quick
+
+    def fail(self, what, **kw):
+        d = dict(what=what)
+        d.update(kw)
+        self.failing_inputs.append(d)
+
+
 def search(ctx, broken):
     """A proof or the correspondence broke: look for a sequence on which the PROPERTY fails on the real code."""
-    found = []
     exe = vlib.build_harness(ctx.snap, "h_drawing")
     rng = vlib.Rng(ctx.seed + 1)
     cases = []
@@ -602,10 +720,9 @@ def search(ctx, broken):
         if c.get("ops"):
             cases.append([tuple(o) for o in c["ops"]])
     cases += [gen_seq(rng, rng.randint(6, 30), arcs=(k % 4 == 0), lattice_p=rng.choice([0.75, 0.4])) for k in range(1500)]
-    sub = vlib.Ctx.__new__(vlib.Ctx)
-    sub.__dict__.update(ctx.__dict__)
-    sub.failing_inputs = []
+    cases += [gen_props_copy(rng) for _ in range(300)]
+    sub = _Collect(ctx)
     check_cases(sub, exe, list(enumerate(cases)), new_stats(), with_model=False)
-    for f in sub.failing_inputs[:3]:
-        found.append(f)
-    return found
+    known = {SIG_D4, SIG_F1, SIG_F2, SIG_F3, SIG_F4, SIG_F5, SIG_F6}
+    fresh = [f for f in sub.failing_inputs if f.get("signature") not in known]
+    return (fresh or sub.failing_inputs)[:3]
